@@ -1,4 +1,4 @@
 (* Extraction of the executable oracles and models.  ExtrOcamlBasic only; nat, N, Z, positive, string stay extracted datatypes. *)
 From Coq Require Import extraction.Extraction extraction.ExtrOcamlBasic.
-Require Import GenPrelude FromSource FromTransformers Loop Ctx Oracle.
-Extraction "model.ml" tsm_enum cls_enum tf_values df_values tht_values imain_run default_imin_gen default_imax_gen default_istop_gen decide tel_ctx_reject_gen del_ctx_reject_gen lookahead_part_gen.
+Require Import GenPrelude FromSource FromTransformers FromApp Loop Ctx Print Oracle.
+Extraction "model.ml" tsm_enum cls_enum tf_values df_values tht_values imain_run default_imin_gen default_imax_gen default_istop_gen decide tel_ctx_reject_gen del_ctx_reject_gen lookahead_part_gen print_model parse_imin_gen parse_imax_gen istop_values_gen.
